@@ -192,8 +192,9 @@ def reference(ctx):
     ok = False
     if ra is not None:
         a = ra.single_atom()
-        if a is not None and a[0] == "ite" and a[2] == const(1) and a[3] == const(0):
-            c = q.is_cmp(a[1])
+        if a is not None and a[0] == "ite" and {T.akey(a[2]), T.akey(a[3])} == {T.akey(const(1)), T.akey(const(0))}:
+            cond = a[1] if a[2] == const(1) else T.mk_not(a[1])
+            c = q.is_cmp(cond)
             ok = c is not None and c[1] == ">=" and T.mentions(a[1], lambda z: z[0] == "call" and z[1] == "abs") and T.same((const(1) - c[2]), [atom(z) for z in c[2].atoms() if z[0] == "call" and z[1] == "abs"][0])
     ctx.ob("FRM", "MD3.calculate_margin_inclusion_signal", "signal = 1 iff |w.x + b| <= 1", ok, q.short(ra, 120) if ra is not None else "")
     # reset
